@@ -100,7 +100,7 @@ ASSUMPTIONS = [
 ]
 _S = 'origin:search'
 FLOORS = {'nontrivial': (0.15, _S), 'pre:locked': (0.1, _S), 'pre:singleton-cached': (0.1, _S),
-          'pre:imports-recorded': (0.1, _S), 'pre:operative-nonempty': (0.4, _S),
+          'pre:imports-recorded': (0.07, _S), 'pre:operative-nonempty': (0.4, _S),
           'pre:parsed-bindings': (0.4, _S), 'hist:const-suffix-coexist': (0.03, _S),
           'hist:const-suffix-defined-after-longer': (0.03, _S),
           'hist:const-interactive-ok': (0.1, _S), 'hist:failed-op': (0.3, _S),
